@@ -289,6 +289,34 @@ func legC14Interleave(c *Ctx) {
 		c.Add(cs)
 		c14StopWithin(3 * time.Second)
 	}
+	// a slow match that never backtracks (its cost is all forward execution) is interrupted like any other: the
+	// deadline is polled while instructions run, not only when the matcher is about to backtrack
+	{
+		pat := `^(?:(?=[\w\s]*!)(?=[\w\s]*!)(?=[\w\s]*!)a)*$`
+		in := strings.Repeat("a", 7000) + "!"
+		plain := regexp2.MustCompile(pat)
+		t0 := time.Now()
+		_, _ = plain.MatchString(in)
+		untimed := time.Since(t0)
+		cs := &Case{Desc: fmt.Sprintf("forward-only slow match (%v untimed) with MatchTimeout=20ms", untimed.Round(time.Millisecond)), Nontrivial: true, Key: "forward-only", Class: "forward-only"}
+		if untimed > 150*time.Millisecond {
+			re := regexp2.MustCompile(pat)
+			re.MatchTimeout = 20 * time.Millisecond
+			c14TakeStall()
+			t0 = time.Now()
+			_, err := re.MatchString(in)
+			el := time.Since(t0)
+			allow := 20*time.Millisecond + 40*time.Millisecond + time.Duration(c14TakeStall())
+			if err == nil {
+				cs.Direct = fmt.Sprintf("the match ran to completion in %v although its deadline (20 ms) passed long before: no timeout was reported", el.Round(time.Millisecond))
+			} else if el > allow && el > untimed/2 {
+				cs.Direct = fmt.Sprintf("the timeout was reported after %v (timeout 20 ms, allowance %v, untimed run %v)", el.Round(time.Millisecond), allow, untimed.Round(time.Millisecond))
+			}
+		} else {
+			c.Hist("forward-only-too-fast-to-judge")
+		}
+		c.Add(cs)
+	}
 	c.Gate("continuation scans ran", conts >= 10)
 	c.Gate("interleaving scenarios ran", ran >= 16)
 }
